@@ -1120,3 +1120,195 @@ for _case in _SUB_PARAM:
     CONTRACTS[f"{BC}.postprocess#C12/{_case}"].runtime = Runtime(
         _postprocess_cases(_case), _postprocess_build, call=_with_libs(lambda fn, a: fn(a["self"], a["ttf"], a["ufo"], a["glyphSet"])),
     )
+
+
+# =====================================================================================================
+# End to end: BaseCompiler.compile as run by compileOTF (= OTFCompiler(**kwargs).compile(ufo), hook S): preprocess ->
+# compileOutlines -> compileFeatures -> postprocess.  What is proved here is the COMPOSITION: the outline compiler that
+# builds the font got "specialise iff level >= SPECIALIZE" and the compiler's roundTolerance, and the font it built (a 'CFF '
+# font, IN = 1) goes through the dispatch table of postprocess with the compiler's level / cffVersion / subroutinizer.
+_NativeLibs.compiles = []
+CLASSES["C12Compiler"].fields.update({"layerName": Opt(STR), "skipFeatureCompilation": BOOL})
+CLASSES["C12Compiler"].derived["libs"] = _libs
+CLASSES["C12Compiler"].views["libs"] = lambda o: NATIVE_LIBS
+
+
+_OC_COMPILE_DOC = """SUMMARY of OutlineOTFCompiler.compile() (ufo2ft code, not executed here): returns a new font with a 'CFF ' table and no
+'CFF2' table (sfntVersion 'OTTO': setupTable_CFF always runs for the full table set) [bounded: run-time cross-check of
+compile#C12 on real UFOs, observer O]; recorded in libs.compiles"""
+
+
+cls("C12OTFCompilerE", fields=dict(CLASSES["C12OTFCompiler"].fields), repo=OC,
+    notes="OutlineOTFCompiler instance whose compile() is summarised as 'a new CFF font' (end-to-end composition)")
+CLASSES["C12Libs"].fields["compiles"] = List(Ref("C12OTFCompilerE"))  # the outline compilers that have built a font, in order
+
+
+def _oc_compile_font_e(ex, st, self, args, kwargs, node):
+    r = ex.new_object(st, "PPFont")
+    ex.write_field(st, r, "has_CFF", Val.const(True), node)
+    ex.write_field(st, r, "has_CFF2", Val.const(False), node)
+    w = Val(Ref("C12Libs"), _WORLD)
+    cur = ex.read_field(st, w, "compiles")
+    ex.write_field(st, w, "compiles", Val(List(Ref("C12OTFCompilerE")), z3.Concat(cur.term, z3.Unit(lift(self)))), node)
+    return r
+
+
+_oc_compile_font_e.__doc__ = _OC_COMPILE_DOC
+CLASSES["C12OTFCompilerE"].methods["compile"] = _oc_compile_font_e
+
+for _kind, (_oty, _spec) in {"level": (INT, "optimizeCFF >= 1")}.items():
+    contract(
+        f"{OC}.__init__", name="C12-e2e", props=["C12"],
+        params={"self": Ref("C12OTFCompilerE"), "font": Ref("C12Font"), "roundTolerance": Opt(REAL), "optimizeCFF": _oty},
+        globals={"super": Val.obj(FuncRef(None, "c12.super_init"))},
+        modifies=["self.roundTolerance", "self.optimizeCFF", "self._defaultAndNominalWidths"],
+        ensures={"specialise-iff": f"self.optimizeCFF == ({_spec})", "tolerance": "self.roundTolerance == (0.5 if roundTolerance is None else roundTolerance)"},
+        canaries={"always-specialise": "self.optimizeCFF"},
+    )
+
+
+def _oc_ctor_e(ex, st, args, kwargs, node):
+    """OutlineOTFCompiler(ufo, glyphSet=.., **kw) = a new instance initialised by the contract of its __init__ (the source font is
+    only passed along: it is replaced by an opaque object here)"""
+    obj = ex.new_object(st, "C12OTFCompilerE")
+    kw = {k: v for k, v in kwargs.items() if k != "glyphSet"}
+    ex.call_contract(CONTRACTS[f"{OC}.__init__#C12-e2e"], [obj, ex.new_object(st, "C12Font")], kw, st, node, implicit=1)
+    return obj
+
+
+_E2E_OC_MOD = ["C12OTFCompilerE.roundTolerance", "C12OTFCompilerE.optimizeCFF", "C12OTFCompilerE._defaultAndNominalWidths", "C12Libs.compiles",
+               "PPFont.has_CFF", "PPFont.has_CFF2"]
+_BUILT = "self.libs.compiles"
+contract(
+    f"{BC}.compileOutlines", name="C12-e2e", props=["C12"],
+    params={"self": Ref("C12Compiler"), "ufo": Ref("PPUfo"), "glyphSet": Ref("PPGlyphSet")},
+    returns=Ref("PPFont"),
+    globals=_PRUNE_GLOBALS,
+    models={"ufo2ft.outlineCompiler.OutlineOTFCompiler": _oc_ctor_e},
+    modifies=_E2E_OC_MOD,
+    ensures={
+        "one-outline-compiler": f"len({_BUILT}) == len(old({_BUILT})) + 1",
+        "level-reaches-outline-compiler": f"{_BUILT}[-1].optimizeCFF == (self.optimizeCFF >= 1)",
+        "tolerance-reaches-outline-compiler": f"{_BUILT}[-1].roundTolerance == (0.5 if self.roundTolerance is None else self.roundTolerance)",
+        "a-new-cff-font": "fresh(result) and 'CFF ' in result and 'CFF2' not in result",
+        "no-library-call": "self.libs.calls == old(self.libs.calls)",
+    },
+    canaries={"always-specialise": f"{_BUILT}[-1].optimizeCFF"},
+)
+
+# SUMMARIES of the two steps that are other properties' business (ufo2ft code; used at the two call sites in compile, never proved
+# here): they do not touch the compiler's CFF options (hook S: no attribute store to them anywhere in Lib/ufo2ft), call none of
+# the CFF libraries (hook S: the three entry points are referenced in postProcessor.py only) and leave the font's table SET
+# alone as far as 'CFF ' / 'CFF2' / 'post' go (feature compilation ADDS layout tables) [bounded: run-time cross-check of
+# compile#C12, observer O].
+contract(
+    f"{BC}.preprocess", name="C12-summary", props=[],
+    params={"self": Ref("C12Compiler"), "ufo_or_ufos": Ref("PPUfo")}, returns=Ref("PPGlyphSet"),
+    modifies=["C12Compiler.skipExportGlyphs"],
+    notes="assumed summary (frame only)",
+)
+contract(
+    f"{BC}.compileFeatures", name="C12-summary", props=[],
+    params={"self": Ref("C12Compiler"), "ufo": Ref("PPUfo"), "ttFont": Ref("PPFont"), "glyphSet": Ref("PPGlyphSet")},
+    modifies=["C12Compiler.featureCompilerClass", "PPFont.pristine", "PPFont.CFF2_loaded"],
+    notes="assumed summary (frame only)",
+)
+
+_E2E_MOD = sorted(set(_POSTPROCESS_MOD) | set(_E2E_OC_MOD) | {"C12Compiler.skipExportGlyphs", "C12Compiler.featureCompilerClass"})
+_L = "self.libs.calls"
+_VER = "self.cffVersion"
+_OUT1 = f"(1 if {_VER} is None else {_VER})"  # IN is 1: the outline compiler builds a 'CFF ' table
+_OPT_E = "(self.optimizeCFF >= 2)"
+_BADV = f"({_VER} is not None and {_VER} != 1 and {_VER} != 2)"
+
+
+def _e2e_one_call(fn, ver, keep):
+    return (f"len({_L}) == len(old({_L})) + 1 and {_L}[:-1] == old({_L}) and {_L}[-1].fn == {fn!r} and {_L}[-1].cff_version == {ver} "
+            f"and {_L}[-1].keep_glyph_names == {keep}")
+
+
+def _e2e_parts(case):
+    ve = _BADV + (f" or {_OPT_E}" if case == "unknown" else "")
+    nie = f"not ({ve}) and {_OPT_E} and {_OUT1} != 1" if case == "compreffor" else "False"
+    sub = {
+        "cffsubr": {"subroutinize-with-cffsubr": f"implies({_OPT_E}, " + _e2e_one_call("cffsubr.subroutinize", _OUT1, False) + ")"},
+        "compreffor": {"subroutinize-with-compreffor": f"implies({_OPT_E}, " + _e2e_one_call("compreffor.compress", None, None) + ")"},
+        "unknown": {},
+    }
+    sub["default"] = sub["cffsubr"]
+    ens = {
+        **sub[case],
+        "no-optimize-cff1": f"implies(not {_OPT_E} and {_OUT1} == 1, {_L} == old({_L}))",
+        "no-optimize-convert": f"implies(not {_OPT_E} and {_OUT1} == 2, " + _e2e_one_call("convertCFFToCFF2", None, None) + ")",
+        "requested-flavour": f"iff('CFF ' in result, {_OUT1} == 1) and implies({_OUT1} == 2, 'CFF2' in result)",
+        # the font was drawn by exactly one outline compiler, which specialises iff level >= SPECIALIZE and rounds as the compiler says
+        "one-outline-compiler": f"len({_BUILT}) == len(old({_BUILT})) + 1",
+        "level-reaches-outline-compiler": f"{_BUILT}[-1].optimizeCFF == (self.optimizeCFF >= 1)",
+        "tolerance-reaches-outline-compiler": f"{_BUILT}[-1].roundTolerance == (0.5 if self.roundTolerance is None else self.roundTolerance)",
+    }
+    return ens, {"ValueError": ve, "NotImplementedError": nie}
+
+
+for _case in _SUB_PARAM:
+    _ens, _raises = _e2e_parts(_case)
+    contract(
+        f"{BC}.compile", name=f"C12/{_case}", props=["C12"],
+        params={"self": Ref("C12Compiler"), "ufo": Ref("PPUfo")},
+        returns=Ref("PPFont"),
+        requires=[_SUB_IS[_case]],
+        calls={f"{BC}.preprocess": f"{BC}.preprocess#C12-summary", f"{BC}.compileOutlines": f"{BC}.compileOutlines#C12-e2e",
+               f"{BC}.compileFeatures": f"{BC}.compileFeatures#C12-summary", f"{BC}.postprocess": f"{BC}.postprocess#C12/{_case}"},
+        modifies=_E2E_MOD,
+        raises={k: v for k, v in _raises.items() if v != "False"},
+        ensures=_ens,
+        canaries={"never-a-library-call": f"{_L} == old({_L})", "always-cff1": "'CFF ' in result"},
+    )
+
+
+def _e2e_cases(case):
+    def gen(rng, n):
+        cap = 8 if n <= 100 else 30
+        out = []
+        names = c11.names_cases(rng, 8)
+        for o in (0, 1, 2, 3):
+            for v in (None, 1, 2, 0):
+                for s_ in _SUB_VALUES[case]:
+                    for rt_ in ("unset", None, 0, 0.25):
+                        d = dict(rng.choice(names))
+                        if any(ord(ch) > 126 for g in d["glyphs"] for ch in g):
+                            continue
+                        d.update(opt=o, ver=v, sub=s_, rt=rt_, upn=rng.choice([None, False, True]))
+                        out.append(d)
+        rng.shuffle(out)
+        return out[:cap]
+
+    return gen
+
+
+def _e2e_build(d):
+    import logging
+
+    from ufo2ft.outlineCompiler import OutlineOTFCompiler
+
+    logging.getLogger("ufo2ft").setLevel(logging.ERROR)
+    logging.getLogger("fontTools").setLevel(logging.ERROR)
+
+    class Rec(OutlineOTFCompiler):
+        def compile(self):
+            NATIVE_LIBS.compiles.append(self)
+            return super().compile()
+
+    ufo = c11.build_pp(d, otf=c11.FakeFont([])).ufo
+    del NATIVE_LIBS.calls[:-3]
+    del NATIVE_LIBS.compiles[:-3]
+    kw = {} if d["rt"] == "unset" else {"roundTolerance": d["rt"]}
+    return {"self": _OTFC(optimizeCFF=d["opt"], cffVersion=d["ver"], subroutinizer=d["sub"], useProductionNames=d["upn"], outlineCompilerClass=Rec, **kw), "ufo": ufo}
+
+
+for _case in _SUB_PARAM:
+    CONTRACTS[f"{BC}.compile#C12/{_case}"].runtime = Runtime(_e2e_cases(_case), _e2e_build, call=_with_libs(lambda fn, a: fn(a["self"], a["ufo"])))
+CONTRACTS[f"{BC}.compileOutlines#C12-e2e"].runtime = Runtime(
+    lambda rng, n: [dict(d, opt=o, ver=None, sub=None, rt=r, upn=None) for d in c11.names_cases(rng, 3) for o in (0, 1, 2) for r in ("unset", 0.25)
+                    if not any(ord(ch) > 126 for g in d["glyphs"] for ch in g)],
+    lambda d: (lambda a: {"self": a["self"], "ufo": a["ufo"], "glyphSet": {g.name: g for g in a["ufo"]}})(_e2e_build(d)),
+)
